@@ -150,7 +150,7 @@ Return ==
   /\ Rec.e = "ret"
   /\ ret' = Rec
   /\ V({<<"FaultSurfaces", Rec.fired > 0 => Rec.err>>,
-        <<"NoSpuriousError", Rec.fired = 0 => ~Rec.err>>,
+        <<"NoSpuriousError", (Rec.fired = 0 /\ ~Rec.cancelled) => ~Rec.err>>,
         <<"CallbackErrorReturned", cbFail /\ Rec.fired = 1 => Rec.cberr>>,
         <<"Quiescent", srcIn = 0 /\ dstIn = 0>>,
         <<"TransferredNotified", ~Rec.err => \A n \in pushed : cbs[n] = <<"pre", "post">> >>,
@@ -188,6 +188,7 @@ Final ==
      IN V({<<"ClosedFinal", Closed(has)>>,
            <<"SuccessComplete", ok => want \subseteq has>>,
            <<"SuccessBytes", ok => want \subseteq good>>,
+           <<"EdgesResolvable", ok => \A i \in 1..Len(Rec.dangling) : Rec.dangling[i][1] \notin want>>,
            <<"PresentBytes", has \subseteq good>>,
            <<"RootTagged", ok /\ IsTagging => Rec.tag = (IF IsExt THEN g.root ELSE ExpectedRoot)>>,
            <<"ExtAllAncestors", ok /\ IsExt /\ g.depth = 0 => has = Rng(g.dst0) \cup ExtAll>>,
